@@ -233,6 +233,14 @@ func (r *NgReader) readOption() error {
 	return nil
 }
 
+// checkOptionLength returns an error if the value of the current option is shorter than the fixed-size part it is parsed as.
+func (r *NgReader) checkOptionLength(minimum int) error {
+	if len(r.currentOption.value) < minimum {
+		return fmt.Errorf("Option %d is too short: got %d bytes, need at least %d", r.currentOption.code, len(r.currentOption.value), minimum)
+	}
+	return nil
+}
+
 // readSectionHeader parses the full section header and implements section skipping in case of version mismatch
 // if needed, the first interface is read
 func (r *NgReader) readSectionHeader() error {
@@ -397,13 +405,22 @@ OPTIONS:
 		case ngOptionCodeInterfaceDescription:
 			intf.Description = string(r.currentOption.value)
 		case ngOptionCodeInterfaceFilter:
+			if err := r.checkOptionLength(1); err != nil {
+				return err
+			}
 			// ignore filter type (first byte) since it is not specified
 			intf.Filter = string(r.currentOption.value[1:])
 		case ngOptionCodeInterfaceOS:
 			intf.OS = string(r.currentOption.value)
 		case ngOptionCodeInterfaceTimestampOffset:
+			if err := r.checkOptionLength(8); err != nil {
+				return err
+			}
 			intf.TimestampOffset = r.getUint64(r.currentOption.value[:8])
 		case ngOptionCodeInterfaceTimestampResolution:
+			if err := r.checkOptionLength(1); err != nil {
+				return err
+			}
 			intf.TimestampResolution = NgResolution(r.currentOption.value[0])
 		}
 	}
@@ -468,14 +485,26 @@ OPTIONS:
 		case ngOptionCodeComment:
 			stats.Comment = string(r.currentOption.value)
 		case ngOptionCodeInterfaceStatisticsStartTime:
+			if err := r.checkOptionLength(8); err != nil {
+				return err
+			}
 			ts = uint64(r.getUint32(r.currentOption.value[:4]))<<32 | uint64(r.getUint32(r.currentOption.value[4:8]))
 			stats.StartTime = time.Unix(r.convertTime(ifaceID, ts)).UTC()
 		case ngOptionCodeInterfaceStatisticsEndTime:
+			if err := r.checkOptionLength(8); err != nil {
+				return err
+			}
 			ts = uint64(r.getUint32(r.currentOption.value[:4]))<<32 | uint64(r.getUint32(r.currentOption.value[4:8]))
 			stats.EndTime = time.Unix(r.convertTime(ifaceID, ts)).UTC()
 		case ngOptionCodeInterfaceStatisticsInterfaceReceived:
+			if err := r.checkOptionLength(8); err != nil {
+				return err
+			}
 			stats.PacketsReceived = r.getUint64(r.currentOption.value[:8])
 		case ngOptionCodeInterfaceStatisticsInterfaceDropped:
+			if err := r.checkOptionLength(8); err != nil {
+				return err
+			}
 			stats.PacketsDropped = r.getUint64(r.currentOption.value[:8])
 		}
 	}
@@ -593,10 +622,16 @@ OPTIONS:
 		case ngOptionCodeComment:
 			opts.Comments = append(opts.Comments, string(r.currentOption.value))
 		case ngOptionCodeEpbFlags:
+			if err := r.checkOptionLength(4); err != nil {
+				return opts, err
+			}
 			flags := NgEpbFlags{}
 			flags.FromUint32(binary.LittleEndian.Uint32(r.currentOption.value))
 			opts.Flags = &flags
 		case ngOptionCodeEpbHash:
+			if err := r.checkOptionLength(1); err != nil {
+				return opts, err
+			}
 			v := make([]byte, len(r.currentOption.value)-1)
 			copy(v, r.currentOption.value[1:])
 			opts.Hashes = append(opts.Hashes, NgEpbHash{
@@ -604,15 +639,27 @@ OPTIONS:
 				Hash:      v,
 			})
 		case ngOptionCodeEpbDropCount:
+			if err := r.checkOptionLength(8); err != nil {
+				return opts, err
+			}
 			v := binary.LittleEndian.Uint64(r.currentOption.value)
 			opts.DropCount = &v
 		case ngOptionCodeEpbPacketID:
+			if err := r.checkOptionLength(8); err != nil {
+				return opts, err
+			}
 			v := binary.LittleEndian.Uint64(r.currentOption.value)
 			opts.PacketID = &v
 		case ngOptionCodeEpbQueue:
+			if err := r.checkOptionLength(4); err != nil {
+				return opts, err
+			}
 			v := binary.LittleEndian.Uint32(r.currentOption.value)
 			opts.Queue = &v
 		case ngOptionCodeEpbVerdict:
+			if err := r.checkOptionLength(1); err != nil {
+				return opts, err
+			}
 			v := make([]byte, len(r.currentOption.value)-1)
 			copy(v, r.currentOption.value[1:])
 			opts.Verdicts = append(opts.Verdicts, NgEpbVerdict{
